@@ -11,7 +11,7 @@ repo = Repo()
 R = specs.load_all(Registry())
 pat = sys.argv[1] if len(sys.argv) > 1 else ""
 for tgt, c in R.contracts.items():
-    if c.assumed or pat not in tgt:
+    if c.assumed or c.inline or pat not in tgt:
         continue
     t0 = time.time()
     v = Verifier(repo, R)
